@@ -234,6 +234,23 @@ def run_history(case, d, want_regen=True):
                      accessmode=case['mode'], **kw)
     ref = init.copy()
     steps = [observe(a, path, ref, ['ok'], want_regen=want_regen)]
+    held = []
+
+    def hold():
+        # the whole history runs with the array held open (open_array() context on the live handle):
+        # every step must behave as it does outside a context
+        if case.get('heldopen'):
+            cm = a.open_array()
+            cm.__enter__()
+            held.append(cm)
+
+    def unhold():
+        while held:
+            try:
+                held.pop().__exit__(None, None, None)
+            except Exception:
+                pass
+    hold()
     for op in case['ops']:
         k = op['op']
         extra = {}
@@ -318,7 +335,9 @@ def run_history(case, d, want_regen=True):
                 if len(new) < len(ref):
                     ref = new.copy()
             if op.get('bypath') and res[0] == 'ok':
+                unhold()
                 a = darr.Array(path, accessmode=a.accessmode)
+                hold()
         elif k == 'setitem':
             ix = parse_index(op['index'])
             val = build_value(op['value'])
@@ -347,11 +366,13 @@ def run_history(case, d, want_regen=True):
         elif k == 'setmode':
             res = call(lambda: setattr(a, 'accessmode', op['mode']))
         elif k == 'reopen':
+            unhold()
             try:
                 a = darr.Array(path, accessmode=op['mode'])
                 res = ['ok']
             except Exception as e:
                 res = ['exc', type(e).__name__]
+            hold()
         elif k == 'metaset':
             res = call(lambda: a.metadata.update(op['value']))
         elif k == 'metaop':
@@ -383,4 +404,5 @@ def run_history(case, d, want_regen=True):
         else:
             raise ValueError(k)
         steps.append(observe(a, path, ref, res, extra, want_regen=want_regen))
+    unhold()
     return steps
